@@ -25,6 +25,7 @@ fn property(id: &str) -> Option<Box<dyn Property>> {
         "C13" => Some(Box::new(props::c13::C13)),
         "C14" => Some(Box::new(props::c14::C14)),
         "C15" => Some(Box::new(props::c15::C15)),
+        "C18" => Some(Box::new(props::c18::C18)),
         "C20" => Some(Box::new(props::c20::C20)),
         _ => None,
     }
